@@ -3,7 +3,8 @@
   D1 emitter agreement inside tools/orcc.c: prototype / backup call / executor backup call
      / executor fill-in walk the same variable classes with the same extras
   D2 name tables: varnames <-> enumnames <-> ORC_VAR_* enum, three copies identical
-  D3 64-bit parameter halves: writer and readers use the same slot distance
+  D3 64-bit parameter halves: writer and readers use the same slot distance; the generated statements (code templates
+     instantiated into a scratch unit) combine them as zero-extended low | high << 32
   D4 (thorough) generated sources of a corpus of well-formed inputs type-check in every orcc mode
 Run-time results in the four modes are NOT decided.
 """
@@ -235,6 +236,14 @@ def run(ctx):
                               "%s accesses the high half at distance %d, orcc writes it at distance %d" % (fn, lin[1], dist), line=n.line)
     if readers < 3:
         raise AnalysisBroken("only %d high-half readers found in orcexecutor.c" % readers)
+
+    # ---- D3b: the two halves are combined without sign extension -----------------------------
+    # (the code templates of orcprogram-c.c / orcc.c that assemble a 64-bit parameter are instantiated into a scratch
+    #  translation unit and type-analysed; plus every real function that ORs a shifted high half)
+    from ctemplates import check_param_halves
+    nt, nr = check_param_halves(ctx, db, rep, "D3b-HALVES-ZERO-EXTENDED")
+    rep.extra["param_half_templates"] = nt
+    rep.extra["or_shifted_high_half_sites_in_library"] = nr
 
     if ctx.tier == "thorough":
         d4(ctx, rep)
